@@ -77,6 +77,7 @@ class NodeV(V):
     desc: str = ""
     src: Optional[Path] = None
     force: str = ""  # "empty": an optional node that matched nothing; "present": it matched its member
+    force_text: Optional[str] = None  # case split: the node matched exactly this literal
 
     def __repr__(self):
         return f"NodeV({self.desc})"
@@ -415,7 +416,21 @@ class Interp:
                 (NodeV(e, path, desc=desc, force="empty"), Seq([])),
                 (NodeV(e, path, desc=desc, force="present"), Seq([children.tail])),
             ]
-        return [(NodeV(e, path, desc=desc), children)]
+        # case split on selector children (raw nodes that match one of a few keywords)
+        configs = [(NodeV(e, path, desc=desc), children)]
+        if children.tail is None:
+            for i, ch in enumerate(children.items):
+                if isinstance(ch, NodeV) and ch.force_text is None:
+                    _, lits = self.text_info(ch)
+                    if lits is not None and 2 <= len(lits) <= 8 and len(configs) * len(lits) <= 16:
+                        nxt = []
+                        for node, chs in configs:
+                            for lit in sorted(lits):
+                                items = list(chs.items)
+                                items[i] = NodeV(ch.expr, ch.path, desc=ch.desc, src=ch.src, force_text=lit)
+                                nxt.append((node, Seq(items)))
+                        configs = nxt
+        return configs
 
     def children_of(self, e, path: Path) -> Seq:
         k = self.peg.kind(e)
@@ -446,6 +461,8 @@ class Interp:
         """(blankness, literal set): blankness T = always blank-only, F = never, M = maybe."""
         p = self.peg
         e = n.expr
+        if n.force_text is not None:
+            return (TRUE if n.force_text.strip() == "" else FALSE), frozenset([n.force_text])
         if n.force == "empty":
             return TRUE, frozenset([""])
         if n.force == "present":
@@ -486,6 +503,8 @@ class Interp:
         """Can node text equal the string s?  T (always - single literal), F (never), M."""
         if n.force == "empty":
             return TRUE if s == "" else FALSE
+        if n.force_text is not None:
+            return TRUE if s == n.force_text else FALSE
         blank, lits = self.text_info(n)
         if lits is not None:
             if lits == {s}:
@@ -1109,6 +1128,15 @@ class Interp:
     def ev_Dict(self, n, env, owner):
         return Unknown("dict display")
 
+    def ev_DictComp(self, n, env, owner):
+        return Unknown("dict comprehension")
+
+    def ev_SetComp(self, n, env, owner):
+        return Unknown("set comprehension")
+
+    def ev_Lambda(self, n, env, owner):
+        return Unknown("lambda")
+
     def _display(self, elts, env, owner) -> V:
         items: List[V] = []
         tail: Optional[V] = None
@@ -1631,9 +1659,10 @@ class Interp:
                 return Unknown("super() outside a method")
             if isinstance(f.value, ast.Name) and f.value.id == "self" and not isinstance(env.get("self"), Obj):
                 # BasicVisitor helper: self.visit_x(node, visited_children)
-                m = self.vm.cls.methods.get(f.attr)
+                m = self.vm.cls.methods.get(f.attr) or self.vm.cls.classmethods.get(f.attr)
                 if m is not None:
-                    return self.call_function(m, [Const(None)] + args, self_obj=None, owner="BasicVisitor", kwargs=kwargs)
+                    static = any(isinstance(d, ast.Name) and d.id == "staticmethod" for d in m.decorator_list)
+                    return self.call_function(m, ([] if static else [Const(None)]) + args, self_obj=None, owner="BasicVisitor", kwargs=kwargs)
                 return Unknown(f"self.{f.attr}()")
             target = self.ev(f, env, owner)
             outs = []
@@ -1645,6 +1674,8 @@ class Interp:
     def call_value(self, t: V, args: List[V], kwargs: Dict[str, V], n: ast.Call, env, owner) -> V:
         if hasattr(t, "bound"):
             obj, (ci, fn) = t.bound
+            if any(isinstance(d, ast.Name) and d.id == "staticmethod" for d in fn.decorator_list):
+                return self.call_function(fn, args, self_obj=None, owner=ci.name, kwargs=kwargs)
             key = None
             if all(isinstance(a, (Const, NumV)) for a in args) and all(isinstance(a, (Const, NumV)) for a in kwargs.values()):
                 key = (id(obj), fn.name, ci.name, tuple(a.value if isinstance(a, Const) else "num" for a in args), tuple(sorted((k, a.value if isinstance(a, Const) else "num") for k, a in kwargs.items())))
@@ -1754,7 +1785,8 @@ class Interp:
         return Unknown(f"str.{meth}")
 
     def construct(self, cls: str, args: List[V], kwargs: Dict[str, V], line: int, owner: str) -> V:
-        obj = Obj(cls, {}, line=line)
+        obj = Obj(cls, {}, line=line, file=(self.py.classes[owner].module if owner in self.py.classes else PARSER_REL))
+        obj.owner = owner  # type: ignore[attr-defined]
         obj.ctor_args = list(args)  # type: ignore[attr-defined]
         obj.ctor_kwargs = dict(kwargs)  # type: ignore[attr-defined]
         r = self.py.resolve_method(cls, "__init__")
